@@ -17,7 +17,7 @@ META = {
              'segment with interior points and at least one split'),
     'require': {'partition': 2500, 'nontrivial': 300},
     'scale': {'quick': 1, 'thorough': 120},
-    'quick_cases': 4000, 'thorough_cases': 480000,
+    'quick_cases': 12000, 'thorough_cases': 480000,
     'assumptions': ['accept/reject comparisons reuse the saved originals of the cost primitives on the same slices (bit-identical)',
                     'a split point within the distance noise floor of the farthest interior point is accepted'],
 }
